@@ -239,6 +239,10 @@ def enums_rule(rep, prog, cfg):
         extra = set(got) - set(exp)
         rep.check(not extra, rule, "%s/%s no extra spellings" % (cfg, short), b.loc(b.span),
                   "%s accepts spellings outside the reference: %s" % (short, sorted(extra)))
+        tr = tables.transformed_compares(b)
+        rep.check(not tr, rule, "%s/%s compares the received value" % (cfg, short), b.loc(b.span),
+                  "the wire value of %s is transformed before it is matched (%s): spellings the MPD reference does not define would be accepted"
+                  % (short, sorted({x for v in tr.values() for x in v})))
         # unknown spelling -> invalid_value error
         cs = [c for c in tables.str_compares(b) if c["lit"] in exp]
         if cs:
@@ -372,6 +376,48 @@ def errors_rule(rep, prog, cfg):
     rep.check(n == 0, rule, cfg + "/no swallowed conversion errors", "mpd_client::responses", "see above", detail={"bodies": len(scope)})
 
 
+# iterator adapters / consumers that drop, merge or reorder elements of the stream they are applied to
+DROPPING_ADAPTERS = ("filter", "filter_map", "skip", "skip_while", "take", "take_while", "step_by", "map_while", "scan",
+                     "flatten", "flat_map", "dedup", "dedup_by", "dedup_by_key", "rev", "last", "nth", "nth_back", "max", "min",
+                     "max_by", "min_by", "max_by_key", "min_by_key", "find_map", "rfind", "retain", "truncate", "drain", "swap_remove",
+                     "sort", "sort_by", "sort_by_key", "sort_unstable", "sort_unstable_by", "sort_unstable_by_key", "reverse", "pop",
+                     "remove", "clear", "split_off")
+DROPPING_OWNERS = ("core::iter::traits::iterator::Iterator::", "core::iter::traits::double_ended::DoubleEndedIterator::",
+                   "alloc::vec::Vec::<T, A>::", "alloc::vec::Vec::<T>::", "core::slice::<impl [T]>::", "alloc::slice::<impl [T]>::",
+                   "alloc::collections::vec_deque::VecDeque::<T, A>::")
+
+
+def lossless_iter_rule(rep, prog, cfg):
+    """The decoded value carries exactly the values the server sent: a reply decoder may walk the fields of a frame, but no
+    element-dropping / reordering adapter may sit between the frame and the decoded collection.  Scope: the bodies of the
+    responses module and of Command::response impls, except the delegating Iterator impls of the public value iterators."""
+    rule = "C16.lossless-iter"
+    scope = 0
+    hits = []
+    for b in prog.bodies.values():
+        if b.crate != "mpd_client" or b.raw.get("derived"):
+            continue
+        root = prog.bodies.get(b.root, b)
+        rn = norm(root.name)
+        in_scope = rn.startswith("mpd_client::responses::") or rn.endswith("as mpd_client::commands::Command>::response")
+        if not in_scope:
+            continue
+        if " as core::iter::traits::" in rn and "::next" not in rn.rsplit(">::", 1)[-1]:
+            continue  # count/last/nth/... of ListValuesIter delegate to the inner iterator's method of the same name
+        scope += 1
+        for bb, t in b.calls():
+            for n in callee_names(t)[:1]:
+                for o in DROPPING_OWNERS:
+                    if n.startswith(o) and n[len(o):].split("::<")[0] in DROPPING_ADAPTERS:
+                        hits.append((rn, n[len(o):].split("::<")[0], b.loc(b.blocks[bb]["ts"])))
+    for rn, ad, where in hits:
+        rep.fail(rule, "%s/%s:%s" % (cfg, rn, ad), where,
+                 "the reply decoder %s applies `%s` to the stream of fields/values: elements the server sent would be dropped, merged or reordered before they reach the decoded value" % (rn, ad))
+    rep.check(not hits, rule, cfg + "/no dropping adapter in reply decoders", "responses/", "see above", detail={"bodies_in_scope": scope})
+    rep.floor(rule, cfg + "/decoder bodies in scope", scope, 60, "responses/")
+
+
+
 def run(rep, progs, tier):
     rep.explanation = (
         "Rule-based static analysis (no execution). For every typed reply built from named fields the "
@@ -388,6 +434,7 @@ def run(rep, progs, tier):
     rep.rule("C16.pairs", "channel/message, playlist/Last-Modified, songs/playtime parsers compare the documented keys and reject others")
     rep.rule("C16.sticker", "name=value split at the first '='")
     rep.rule("C16.errors", "no Result<_, error> is discarded on the conversion path")
+    rep.rule("C16.lossless-iter", "no element-dropping/reordering iterator or Vec operation in any reply decoder (zero instances expected)")
     rep.rule("C16.no-trunc-cast", "no truncating float->integer cast of a parsed number on the conversion path (zero instances expected)")
     rep.trusted = ["rustc MIR construction", "mpdfacts exporter", "MPD protocol reference tables", "str::parse"]
     for cfg, prog in progs.items():
@@ -401,3 +448,4 @@ def run(rep, progs, tier):
         pairs_rule(rep, prog, cfg)
         sticker_rule(rep, prog, cfg)
         errors_rule(rep, prog, cfg)
+        lossless_iter_rule(rep, prog, cfg)
